@@ -87,6 +87,20 @@ class EnumMember(Obj):
         return f"{self.cls.name}.{self.member}"
 
 
+def _dotted_name(n):
+    if isinstance(n, ast.Name):
+        return n.id
+    if isinstance(n, ast.Attribute):
+        b = _dotted_name(n.value)
+        return f"{b}.{n.attr}" if b else None
+    return None
+
+
+# bases / decorators whose effect on attribute lookup, construction and comparison the Instance model implements
+MODELLED_BASES = {"object", "ABC", "Enum", "IntEnum", "NamedTuple", "Generic", "Protocol"}
+MODELLED_CLASS_DECORATORS = {"dataclass", "total_ordering", "unique"}
+
+
 class Instance(Obj):
     def __init__(self, rt: "Runtime", cls: ClassInfo):
         super().__init__(cls.name)
@@ -94,6 +108,20 @@ class Instance(Obj):
         self.cls = cls
         self.attrs = {}
         self.frozen_log: List[Tuple[str, Any]] = []
+        self.record = None          # ("namedtuple" | "dataclass", field names)
+
+    def _fully_modelled(self) -> bool:
+        for c in self.rt.proj.mro(self.cls):
+            for b in c.external_bases:
+                last = b.split(".")[-1].split("[")[0]
+                if last not in MODELLED_BASES and not (last.endswith("Exception") or last.endswith("Error")):
+                    return False
+            for d in getattr(c, "decorators", []):
+                if d.split(".")[-1] not in MODELLED_CLASS_DECORATORS:
+                    return False
+            if "__getattr__" in c.methods or "__getattribute__" in c.methods or "__slots__" in c.class_attrs:
+                return False
+        return True
 
     # ---- attribute protocol ----------------------------------------------------------------------------
     def abs_getattr(self, name, ev, node):
@@ -116,6 +144,25 @@ class Instance(Obj):
         v = self.rt.proj.lookup_class_attr(self.cls, name)
         if v is not None:
             return ev.ev(v)
+        if self.record is not None:
+            kind, fields = self.record
+            if name == "_fields":
+                return tuple(fields)
+            if name == "_asdict" or name == "_replace":
+                me = self
+
+                def rec_method(args, kw, ev_, node_, name=name):
+                    if name == "_asdict":
+                        return {f: me.attrs[f] for f in fields}
+                    new = Instance(me.rt, me.cls)
+                    new.attrs = dict(me.attrs)
+                    new.attrs.update(kw)
+                    new.record = me.record
+                    return new
+                return ExternalFunc(rec_method)
+        if not self._fully_modelled():
+            raise Unsupported(f"attribute {name} of an instance of {self.cls.name} (its bases / decorators are not "
+                              f"modelled, so a missing attribute cannot be concluded)", node)
         raise AbsRaise("AttributeError", node)
 
     def abs_setattr(self, name, value, ev, node):
@@ -140,21 +187,38 @@ class Instance(Obj):
             return False, None
         return True, self.rt.invoke(m, [self] + list(args), {}, None)
 
+    def _tuple_values(self):
+        if self.record is not None and self.record[0] == "namedtuple":
+            return [self.attrs[f] for f in self.record[1]]
+        return None
+
     def abs_len(self):
         ok, v = self._special("__len__")
         if not ok:
+            tv = self._tuple_values()
+            if tv is not None:
+                return len(tv)
             raise Unsupported(f"len of {self.cls.name}")
         return v
 
     def abs_iter(self):
         ok, v = self._special("__iter__")
         if not ok:
+            tv = self._tuple_values()
+            if tv is not None:
+                return tv
             raise Unsupported(f"iteration over {self.cls.name}")
         return v
 
     def abs_getitem(self, idx, node):
         ok, v = self._special("__getitem__", idx)
         if not ok:
+            tv = self._tuple_values()
+            if tv is not None:
+                try:
+                    return tv[idx]
+                except (IndexError, TypeError):
+                    raise AbsRaise("IndexError", node)
             raise Unsupported(f"indexing {self.cls.name}", node)
         return v
 
@@ -186,6 +250,12 @@ class Instance(Obj):
 
     def __eq__(self, other):
         ok, v = self._special("__eq__", other)
+        if not ok and self.record is not None:
+            if self.record[0] == "namedtuple":
+                ov = other._tuple_values() if isinstance(other, Instance) else (list(other) if isinstance(other, tuple) else None)
+                return ov is not None and self._tuple_values() == ov
+            return isinstance(other, Instance) and other.cls is self.cls and \
+                [self.attrs.get(f) for f in self.record[1]] == [other.attrs.get(f) for f in self.record[1]]
         if not ok or v is NOT_IMPLEMENTED or v == NOT_IMPLEMENTED:
             return self is other
         return bool(v)
@@ -275,9 +345,68 @@ class Runtime:
         inst = Instance(self, cls)
         self.created.append(inst)
         init = self.proj.lookup_method(cls, "__init__")
+        kind = self.record_kind(cls)
+        if init is None and kind is not None:
+            self._init_record(inst, cls, kind, list(args), dict(kw), parent)
+            return inst
         if init is not None:
             self.invoke(init, [inst] + list(args), kw, parent)
+        elif args or kw:
+            raise AbsRaise("TypeError", None)        # object() takes no arguments
         return inst
+
+    # ---- typing.NamedTuple / dataclasses.dataclass classes: the synthesised constructor --------------------
+    def record_kind(self, cls: ClassInfo) -> Optional[str]:
+        for c in self.proj.mro(cls):
+            if any(b.split(".")[-1] == "NamedTuple" for b in c.external_bases):
+                return "namedtuple"
+            if any(d.split(".")[-1] == "dataclass" for d in getattr(c, "decorators", [])):
+                return "dataclass"
+        return None
+
+    def record_fields(self, cls: ClassInfo) -> List[str]:
+        out: List[str] = []
+        for c in reversed(self.proj.mro(cls)):
+            for f in getattr(c, "fields", []):
+                if f not in out:
+                    out.append(f)
+        return out
+
+    def _init_record(self, inst: "Instance", cls: ClassInfo, kind: str, args, kw, parent):
+        fields = self.record_fields(cls)
+        if len(args) > len(fields):
+            raise AbsRaise("TypeError", None)
+        ev = self.evaluator(cls.module)
+        for i, f in enumerate(fields):
+            if i < len(args):
+                if f in kw:
+                    raise AbsRaise("TypeError", None)
+                inst.attrs[f] = args[i]
+            elif f in kw:
+                inst.attrs[f] = kw.pop(f)
+            else:
+                d = self.proj.lookup_class_attr(cls, f)
+                if d is None:
+                    raise AbsRaise("TypeError", None)    # missing required field
+                v = None
+                if isinstance(d, ast.Call) and (_dotted_name(d.func) or "").split(".")[-1] == "field":
+                    fk = {k.arg: k.value for k in d.keywords}
+                    if "default_factory" in fk:
+                        fac = ev.ev(fk["default_factory"])
+                        v = ev._apply(fac, [], d) if not isinstance(fac, type) else fac()
+                    elif "default" in fk:
+                        v = ev.ev(fk["default"])
+                    else:
+                        raise AbsRaise("TypeError", None)
+                else:
+                    v = ev.ev(d)
+                inst.attrs[f] = v
+        if kw:
+            raise AbsRaise("TypeError", None)
+        inst.record = (kind, fields)
+        post = self.proj.lookup_method(cls, "__post_init__")
+        if kind == "dataclass" and post is not None:
+            self.invoke(post, [inst], {}, parent)
 
     def enum_member(self, cls: ClassInfo, name: str, value) -> "EnumMember":
         key = (cls.qualname, name)
